@@ -201,7 +201,10 @@ def thorough_list(prop, seed, cap):
     cur = set(map(show, CURATED))
     space = [s for s in space if show(s) not in cur]
     rnd.shuffle(space)
-    return list(CURATED) + space[:cap]
+    costs = _costs()
+    # every curated shape except the few whose measured cost exceeds 2000 CPU s (they are listed in the evidence as left out)
+    base = [sh for sh in CURATED if costs.get(show(sh), 0) <= 2000]
+    return base + space[:cap]
 
 
 # pairs for included_in (C16): concatenations mixing ranges, Sigma, Sigma*, loops, complements, unions
